@@ -310,6 +310,9 @@ func (c *Ctx) wrappersPreserveNonNil() bool {
 	names := []string{"wrapErrorImpl", "wrapError", "wrapErrorf", "wrapErrorWithRetry"}
 	for _, nm := range names {
 		f := c.Func(nm)
+		if f == nil && nm == "wrapErrorImpl" {
+			continue // the shared implementation may have been merged into the wrappers
+		}
 		if f == nil || len(f.Params) == 0 {
 			return false
 		}
@@ -331,6 +334,9 @@ func (c *Ctx) wrapResultNonNil(f *ssa.Function, at ssa.Instruction, v ssa.Value,
 		return false
 	}
 	v = stripConv(v)
+	if v == cause || c.Resolve(v) == cause {
+		return true // the cause itself: nil exactly when the cause is
+	}
 	if isNilConst(v) {
 		// only where cause == nil
 		for _, b := range f.Blocks {
